@@ -37,11 +37,20 @@
 #include <urcu/tls-compat.h>
 #include "urcu-die.h"
 #include "urcu-utils.h"
+#ifdef URCU_VERIF
+#include <urcu/verif.h>
+#else
+#ifndef urcu_verif_point
+#define urcu_verif_point(id, ctx) do { } while (0)
+#endif
+#endif
 
 /*
  * Number of entries in the per-thread defer queue. Must be power of 2.
  */
+#ifndef DEFER_QUEUE_SIZE
 #define DEFER_QUEUE_SIZE	(1 << 12)
+#endif
 #define DEFER_QUEUE_MASK	(DEFER_QUEUE_SIZE - 1)
 
 /*
@@ -170,6 +179,7 @@ static void wait_defer(void)
 	/* Write futex before read queue */
 	/* Write futex before read defer_thread_stop */
 	cmm_smp_mb();
+	urcu_verif_point(URCU_VP_DEFER_WAIT_AFTER_DEC, &defer_thread_futex);
 	if (uatomic_load(&defer_thread_stop)) {
 		uatomic_store(&defer_thread_futex, 0);
 		pthread_exit(0);
@@ -320,6 +330,7 @@ static void _defer_rcu(void (*fct)(void *p), void *p)
 	 */
 	if (caa_unlikely(head - tail >= DEFER_QUEUE_SIZE - 2)) {
 		urcu_posix_assert(head - tail <= DEFER_QUEUE_SIZE);
+		urcu_verif_point(URCU_VP_DEFER_FULL_FLUSH, &URCU_TLS(defer_queue));
 		rcu_defer_barrier_thread();
 		urcu_posix_assert(head - uatomic_load(&URCU_TLS(defer_queue).tail) == 0);
 	}
@@ -360,6 +371,7 @@ static void _defer_rcu(void (*fct)(void *p), void *p)
 			/* Write q[] before head. */
 	uatomic_store(&URCU_TLS(defer_queue).head, head);
 	cmm_smp_mb();	/* Write queue head before read futex */
+	urcu_verif_point(URCU_VP_DEFER_HEAD_PUBLISHED, &URCU_TLS(defer_queue));
 	/*
 	 * Wake-up any waiting defer thread.
 	 */
@@ -377,6 +389,7 @@ static void *thr_defer(void *args __attribute__((__unused__)))
 		wait_defer();
 		/* Sleeping after wait_defer to let many callbacks enqueue */
 		(void) poll(NULL,0,100);	/* wait for 100ms */
+		urcu_verif_point(URCU_VP_DEFER_THR_BATCH, &defer_thread_futex);
 		rcu_defer_barrier();
 	}
 
